@@ -24,7 +24,7 @@ META = {
             "division functions on constants (negative, float, zero divisors excluded) and with non-constant divisors "
             "(FeatureNotSupported). Oracle: the numpy function on the underlying plain arrays: equal shape and values, equal "
             "dtype kind for boolean / index results, first occurrence for argmax/argmin. distinct = (function, arguments, array).",
-    "bounds": {"shapes": len(SHAPES), "rotations": 3, "dtypes": ["i8", "f8", "u1", "i1", "f4", "?"]},
+    "bounds": {"shapes": len(SHAPES), "rotations": 3, "dtypes": ["i8", "f8", "f8 with magnitudes 5e-324..1e300", "u1", "i1", "f4", "?"]},
     "assumptions": ["results are compared through tonumpy()/asarray; integer vs float width of numeric results is not demanded"],
 }
 
@@ -41,6 +41,9 @@ def filled(shape, rot, kind="i"):
     a = numpy.array(vals).reshape(shape)
     if kind == "f":
         return a.astype(float) * (0.5 if rot == 1 else 1.0)
+    if kind == "mag":
+        mags = [3e-15, 1e-15, 2e-15, 0.0, 1.0 + 1e-13, 1.0, -1e300, 1e300, 5e-324, -3e-15, 1.0 - 1e-13]
+        return numpy.array([mags[(rot + i * (2 if rot == 2 else 1)) % len(mags)] for i in range(n)]).reshape(shape)
     if kind == "u1":
         return (numpy.abs(a) * 50).astype("u1")          # 0..250: sums and differences leave uint8
     if kind == "i1":
@@ -97,7 +100,12 @@ def agree(got, want, strict_kind=False, tol=False):
     if w.dtype == object or g.dtype == object:
         return None if g.tolist() == w.tolist() else f"{g.tolist()} != {w.tolist()}"
     # exact: on constants numpoly applies the very numpy function to the coefficient array, so the bits must agree
-    if tol:
+    if tol == "ulp":
+        # products folded in a different order than numpy's pairwise / multi-axis reduction differ in the last bits
+        gc, wc = g.astype(complex), w.astype(complex)
+        if not numpy.all(numpy.abs(gc - wc) <= 1e-13 * numpy.abs(wc)):
+            return f"values {g.tolist()} != numpy's {w.tolist()} (beyond 1e-13 relative)"
+    elif tol:
         if not numpy.allclose(g.astype(complex), w.astype(complex), rtol=1e-9, atol=1e-9, equal_nan=True):
             return f"values {g.tolist()} != numpy's {w.tolist()}"
     elif not numpy.array_equal(g.astype(complex), w.astype(complex), equal_nan=True):
@@ -117,6 +125,11 @@ def nonfinite(x):
 
 def judge(R, fname, label, f_impl, f_ref, tags, strict_kind=False, sub=None):
     R.tr()
+    if "magnitudes" in tags and fname in ("prod", "cumprod"):
+        # a product across 600 orders of magnitude under- or overflows depending on the folding order, which the
+        # property does not fix; products are compared bit for bit on the other kinds
+        R.stat("order_dependent_float_product_skipped")
+        return
     ref = C08.outcome(f_ref)
     if ref[0] == "exc":
         R.stat("numpy_rejects")
@@ -129,7 +142,7 @@ def judge(R, fname, label, f_impl, f_ref, tags, strict_kind=False, sub=None):
         R.fail(fname, "exception", f"{fname}{label}: {type(got[1]).__name__}: {str(got[1])[:200]} (numpy returns {str(ref[1])[:80]})", tags=tags, sub=sub)
         return
     # numpy.linalg.det is a floating-point LU factorisation, numpoly's det is exact polynomial arithmetic
-    r = agree(to_numeric(got[1]), ref[1], strict_kind, tol=(fname == "det"))
+    r = agree(to_numeric(got[1]), ref[1], strict_kind, tol=True if fname == "det" else "ulp" if "magnitudes" in tags and fname in ("prod", "cumprod") else False)
     if r:
         R.fail(fname, "wrong-value", f"{fname}{label}: {r}"[:460], tags=tags, sub=sub)
     else:
@@ -157,7 +170,7 @@ def cases(tier, seed):
     out = []
     for shape in SHAPES:
         for rot in (0, 1, 2):
-            for kind in ("i", "f") + (("u1", "i1", "f4", "?") if rot == 0 or shape in ((3,), (2, 3)) else ()):
+            for kind in ("i", "f", "mag") + (("u1", "i1", "f4", "?") if rot == 0 or shape in ((3,), (2, 3)) else ()):
                 out.append({"k": "reductions", "s": list(shape), "rot": rot, "kind": kind})
                 out.append({"k": "elementwise", "s": list(shape), "rot": rot, "kind": kind})
     names = sorted({getattr(k, "__name__", str(k)) for k in list(numpoly.FUNCTION_COLLECTION) + list(numpoly.UFUNC_COLLECTION)
@@ -177,7 +190,7 @@ def run_case(case, R):
         a = filled(shape, rot, kind)
         p = const_poly(a, variant="T" if len(shape) >= 2 and rot == 2 else "canon")
         nd = len(shape)
-        tags = [f"ndim={nd}", f"kind={kind}"]
+        tags = [f"ndim={nd}", f"kind={kind}"] + (["magnitudes"] if kind == "mag" else [])
         R.state((k, shape, rot, kind))
         if k == "reductions":
             for fname in ("sum", "prod", "mean", "amax", "amin", "max", "min", "all", "any", "count_nonzero"):
@@ -214,6 +227,20 @@ def run_case(case, R):
             R.sample({"constants": a.tolist(), "functions": "reductions x every axis x keepdims"})
         else:
             narrow = kind in ("u1", "i1", "f4", "?")
+            if kind == "mag":
+                # comparisons, extremes and closeness of values that differ by 1e-15 or span 600 orders of magnitude
+                for fname in ("equal", "not_equal", "less", "less_equal", "greater", "greater_equal", "maximum", "minimum", "isclose", "allclose",
+                              "logical_and", "logical_or"):
+                    npf = getattr(numpy, fname)
+                    b_ = filled(shape, (rot + 1) % 3, kind)
+                    q_ = const_poly(b_, "q1")
+                    for lab, pa, pb, na, nb in (("(a,b)", p, q_, a, b_), ("(b,a)", q_, p, b_, a), ("(a,a)", p, p, a, a), ("(a,1e-15)", p, 1e-15, a, 1e-15)):
+                        judge(R, fname, f"{lab} a={a.tolist()} b={b_.tolist()}", lambda: getattr(numpoly, fname)(pa, pb), lambda: npf(na, nb), tags,
+                              strict_kind=fname in BOOL_FUNCS)
+                for fname in ("absolute", "negative", "square", "isfinite", "rint", "floor", "ceil"):
+                    with numpy.errstate(all="ignore"):
+                        judge(R, fname, f"({a.tolist()})", lambda: getattr(numpoly, fname)(p), lambda: getattr(numpy, fname)(a), tags, strict_kind=fname in BOOL_FUNCS)
+                return
             b = filled(shape, (rot + 1) % 3, kind)
             q = const_poly(b, "q1")
             for fname in ("absolute", "negative", "positive", "square", "ceil", "floor", "rint", "isfinite"):
